@@ -1,19 +1,19 @@
 """C10 - rotating Bloom filter stays bounded and keeps the most recent insertions.  Shape (I) with a ghost counter."""
 from .. import env
-from .c09 import sym_state
+from .c09 import sym_state, boundary, boundary_jobs
 
 PROPERTY = "C10"
 CROSS_CHECK = True      # thorough: dumped assertion queries are re-decided by z3 4.8.12 and cvc5 1.0
 LEVEL = "model_checking"
 STUBS = ["array -> SymArray('B')"]
 ASSUMPTIONS = [
-    "sub-filters use a one-hash geometry (rate 0.5; thorough also rate 0.3 / two hashes): rotation never looks at the geometry",
+    "window / history harnesses: sub-filters use a one-hash geometry (rate 0.5; thorough also rate 0.3 / two hashes); that rotation does not depend on the geometry is decided separately by the boundary sweep shared with C09 (full queue of 2, newest counter concrete at est-1 / est, real float code, est 1..64 x 10 rates)",
     "queue length L <= max_queue_size in the pre-state (a stream re-loaded with a smaller re-supplied limit is outside: the format does not store the limit)",
     "sliding window: a marked key lives in sub-filter p; ghost s = effective insertions since the mark; pre-state invariant s >= (a-1)*est + count(newest) with a = number of sub-filters after p, all of them created by rotation after the mark (full except the newest); the invariant is asserted again on the post-state",
     "explicit push/pop only in the boundedness harness (the window clause excludes them, as the property states)",
 ]
 BOUNDS = {
-    "quick": "est in {1,2,3}, max_queue_size 1..3, every queue length 1..Q and every position of the marked key; add new/duplicate/forced, push, pop; histories of 4 adds from fresh (Q 1..2, est 1..2)",
+    "quick": "boundary sweep est 1..64 x 10 rates on a full queue of 2; est in {1,2,3}, max_queue_size 1..3, every queue length 1..Q and every position of the marked key; add new/duplicate/forced, push, pop; histories of 4 adds from fresh (Q 1..2, est 1..2)",
     "thorough": "adds max_queue_size 4, est 5 and two-hash sub-filters",
     "outside": "queues longer than 4, est > 5",
 }
@@ -132,7 +132,7 @@ def history(ctx, cfg):
         ctx.check(f.elements_added == s + 1, "history-elements_added")
 
 
-HARNESS = {"c10.window": window, "c10.insert_marks": insert_marks, "c10.pushpop": pushpop, "c10.history": history}
+HARNESS = {"c09.boundary": boundary, "c10.window": window, "c10.insert_marks": insert_marks, "c10.pushpop": pushpop, "c10.history": history}
 
 
 def jobs(tier):
@@ -153,6 +153,7 @@ def jobs(tier):
                     js.append({"h": "c10.insert_marks", "cfg": {"est": est, "Q": Q, "L": L, "rate": rate}})
                     for op in ("push", "pop"):
                         js.append({"h": "c10.pushpop", "cfg": {"est": est, "Q": Q, "L": L, "op": op, "rate": rate}, "opts": {"no_witness": False}})
+    js += boundary_jobs(tier, True)
     for est in (1, 2):
         for Q in (1, 2):
             for forces in itertools.product((False, True), repeat=4):
